@@ -267,10 +267,10 @@ def run(tier: str, seed: int):
     n3 = ("a", "b", "c")
     n4 = ("a", "b", "c", "d")
     if tier == "quick":
-        specs = [(n3, 2), (("a", "b"), 3)]
+        specs = [(n3, 2), (("a", "b"), 3), (n4, 1), (("a", "b", "c", "d", "e"), 1)]
         emax = 4
     else:
-        specs = [(n3, 3), (n4, 2), (("a", "b"), 3)]
+        specs = [(n3, 3), (n4, 2), (("a", "b"), 3), (("a", "b", "c", "d", "e"), 1)]
         emax = 5
     sizes = {}
     for names, maxlen in specs:
